@@ -165,6 +165,24 @@ def ob_render(chk, P, maxn):
                             sc = {'kind': 'template', 'partials': {}, 'template': "a{% render 'nope' %}b", '_expect': None}; role = 'Render/plain/missing-partial'
                         ob.violation(role, f'render: {bad} (args={nargs}, store has {present})', {'args': nargs, 'present': present}, sc, tconf(sc))
                 ob.sample({'form': 'plain', 'args': nargs, 'present': present})
+        # ---- partial name that is not a string / cannot be evaluated (all forms)
+        for name_kind in ('array', 'fail'):
+            for form in ('plain', 'for'):
+                st = State(); sink = SinkEnv('W', may_fail=False)
+                child = ChildEnv('partial', sink, 0, owner='scope')
+                penv = ParentWithPartials(('x',), PartialsEnv({'p', ''}, child))
+                nm = expr_stub(Adt('Value', 'Array', [VecV([])]), 'name') if name_kind == 'array' else expr_stub(VALUE_NIL, 'name', True)
+                arr = Adt('Value', 'Array', [VecV([value_scalar(scalar_int(1))])])
+                for_ = Some(Tup([Adt('RangeExpression', 'Array', [expr_stub(arr, 'range')]), StrV('item', 'KString')])) if form == 'for' else NONE
+                self_ = st.ref(Adt('Render', None, [nm, for_, VecV([])], ['partial', 'for_', 'vars']))
+                for s2, kind, val in ex.run(fn, [self_, st.ref(sink.abs(), True), st.ref(penv.abs())], st):
+                    ob.paths += 1
+                    kids = calls(s2, 'child')
+                    if kind == 'panic' or kids or val.variant != 'Err':
+                        sc = {'kind': 'template', 'partials': {'p': 'X'}, 'template': "a{% render arr %}b" if name_kind == 'array' else "a{% render nope %}b", 'globals': {'arr': [1]}, '_expect': None}
+                        ob.violation(f'Render/name-error/{name_kind}', f'render with a {name_kind} partial name ({form} form): {kind} {val}, partial rendered {len(kids)} times (must be an error, not a silent blank)',
+                                     {'name': name_kind, 'form': form}, sc, tconf(sc))
+                ob.sample({'form': form, 'name': name_kind})
         # ---- for form
         for n in range(maxn + 1):
             st = State(); sink = SinkEnv('W', may_fail=False)
